@@ -2195,16 +2195,17 @@ class Parameters:
         return refs, deps
 
     def _setup_refs(self_, refs):
-        groups = defaultdict(list)
+        # (one group per owner *object*: owners may compare equal, or be unhashable)
+        groups = {}
         for pname, subrefs in refs.items():
             for p in subrefs:
 
                 if isinstance(p, Parameter):
-                    groups[p.owner].append((pname, p.name))
+                    groups.setdefault(id(p.owner), (p.owner, []))[1].append((pname, p.name))
                 else:
                     for sp in extract_dependencies(p):
-                        groups[sp.owner].append((pname, sp.name))
-        for owner, pnames in groups.items():
+                        groups.setdefault(id(sp.owner), (sp.owner, []))[1].append((pname, sp.name))
+        for owner, pnames in groups.values():
             refnames, pnames = zip(*pnames)
             self_.self._param__private.ref_watchers.append((
                 refnames,
